@@ -108,4 +108,37 @@ theorem dangling_long_name_renames_next_member :
 theorem overwrite_path_unclamped_at_library_level :
     ((4294967301 : Int) % 4294967296).toNat = 5 ∧ clampTimestamp 4294967301 = 4294967295 := by decide
 
+/-!
+5. **xattr key with '='** (`write_schily_xattr` in `lib/tar/src/write_header.c`, `pax_xattr_schily` in `pax_header.c`):
+   the key is copied verbatim into the `SCHILY.xattr.<key>=<value>` record, but a PAX keyword ends at the first '='.
+   An inode with the attribute `user.a=b` = "v" (a legal Linux xattr name; it gets into an image through
+   `LIBARCHIVE.xattr.user.a%3Db`, gensquashfs, …) comes out of `sqfs2tar | tar2sqfs` — and out of GNU tar — with the
+   attribute `user.a` = "b=v": content altered, status 0.  Repair: `fixes/C04-xattr-key-escape.patch` (GNU tar's
+   convention: '%' → "%25", '=' → "%3D" in the writer, the inverse in the reader; `Sqfs.C04.xattr_key_escape`,
+   `Sqfs.C04.header_roundtrip`).
+-/
+
+def eqKeyFile : WEntry :=
+  { name := ascii "f", mode := S_IFREG + 0o644, uid := 0, gid := 0, size := 0, mtime := 0, devMajor := 0, devMinor := 0,
+    hardLink := false }
+
+def xattrOf : ReadResult → Option (List (Bytes × Bytes))
+  | .ok d _ => some d.xattr
+  | _ => none
+
+set_option maxRecDepth 1000000 in
+/-- unrepaired writer and reader: the pair (`user.a=b`, "v") is read back as (`user.a`, "b=v") -/
+theorem xattr_key_with_equals_is_altered :
+    xattrOf (readHeaderWith { schilyKeyDecode := false }
+      ((writeTarHeaderRawKeys eqKeyFile none [(ascii "user.a=b", ascii "v")] 0).getD [] ++ zeros 1024)) =
+      some [(ascii "user.a", ascii "b=v")] := by
+  decide
+
+set_option maxRecDepth 1000000 in
+/-- repaired writer and reader: the pair comes back unchanged (instance of `Sqfs.C04.header_roundtrip`) -/
+theorem xattr_key_with_equals_repaired :
+    xattrOf (readHeader ((writeTarHeader eqKeyFile none [(ascii "user.a=b", ascii "v")] 0).getD [] ++ zeros 1024)) =
+      some [(ascii "user.a=b", ascii "v")] := by
+  decide
+
 end Sqfs.Witness.C04
